@@ -76,6 +76,24 @@ def check_plan(ctx, cfg, env, tr, worst):
             return "hi-prec clock: initial offset %s exceeds 2^-32 of the longer period" % off
         return None
     ctx.count("plans_stdclock")
+    if not cubic:
+        # "for rational ratios this alignment is exact for the whole stream": with the other stages of THIS plan as they are, the clocked
+        # stage is asked for q input periods per output frame.  If q = M/D with a small D (the planner's search goes up to 2048 phases;
+        # 512 leaves room for the way it may split the ratio differently on the rational path) and the exact D-phase table fits
+        # coef_size_kbytes, running that stage on a rounded 32.32 clock is a drift the ratio does not require.
+        arb = [s for s in tr.plan if s["kind"] not in ("half", "dft", "poly0")]
+        rtf = int(cfg.get("rtflags", 0)) & 3
+        if len(arb) == 1 and rtf in (0, 1) and int(arb[0].get("step", 0)) > 0:
+            q = r * Fraction(int(arb[0]["step"]), int(arb[0]["den"])) / rate
+            D = (q - (q.numerator // q.denominator)).denominator
+            size = 8 if tr.engine in ("cr64", "cr64s") else 4
+            need = D * 2 * (1.5 * int(arb[0].get("n", 0)) + 8) * size / 1000.0       # generous upper bound of the exact table's size in kbytes
+            ctx.hist("dist_arb_denominator", "1" if D == 1 else "<=512" if D <= 512 else "<=2048" if D <= 2048 else ">2048")
+            if D <= 512 and err != 0 and (rtf == 1 or need <= int(cfg.get("kb", 400))):
+                K = int(Fraction(1, 10 ** 6) / (err * scale)) + 1
+                return ("rational ratio not realised exactly: the clocked stage of this plan is asked for %s input periods per output frame "
+                        "(%d phases, an exact table of at most %.0f kbytes) but runs on the rounded 32.32 clock: the stream drifts by %.3g of the "
+                        "longer period per output frame (1e-6 input periods after %d frames, growing without bound)" % (q, D, need, float(err), K))
     worst["std_rate_err*2^32"] = max(worst.get("std_rate_err*2^32", 0), float(err * 2 ** 32))
     if err > TWO32:
         return "standard clock: rate product %s differs from %s by %.3g x 2^-32 of the longer period (bound 1)" % (rate, r, float(err * 2 ** 32))
@@ -194,9 +212,9 @@ def run(ctx):
         if numeric is not None and hasattr(numeric, "confirm"):
             try:
                 found = numeric.confirm(cfg, env)
-                if not found and "SOXR_HI_PREC_CLOCK" in p and nlong < 3:      # a drift shows on a long stream, not on the ramp
+                if not found and ("SOXR_HI_PREC_CLOCK" in p or "rational ratio not realised" in p) and nlong < 3:      # a drift shows on a long stream, not on the ramp
                     nlong += 1
-                    found = numeric.confirm_long(cfg, env)
+                    found = numeric.confirm_long(cfg, env, as_rational="rational ratio not realised" in p)
             except Exception as ex:          # the measurement itself failing is not evidence either way
                 rep["confirm_error"] = repr(ex)
         if found:
@@ -215,6 +233,7 @@ def run(ctx):
     ctx.assume("where the centre of each kernel's response lies inside its window (Cr/Time.lean: tstage) is derived by hand from the kernel "
                "sources and validated only by measurement (ramp read-back / impulse centroid on the real code), not proved",
                "num_coefs of a poly-phase stage is not stored by the library: the harness reconstructs it from n, preload and phase0",
-               "'rational ratio' is read as: a ratio the planner realises with rational stage rates only (no interpolated clocked stage); "
+               "'rational ratio' is read as: a ratio the planner realises with rational stage rates only (no interpolated clocked stage), "
+               "or one that leaves the clocked stage of the plan a ratio with at most 512 phases whose exact table fits coef_size_kbytes; "
                "other rationals (e.g. 44100:44101) get the rounded-clock bound")
     cr.report_broken(ctx, broken, "C04: %d plans and %d long streams showed no misalignment" % (nplans, njobs))
